@@ -388,6 +388,53 @@ def opParseIndex (j : Json) : R Json := do
     | .error .valueError => return Json.mkObj [("error", "ValueError")]
   return Json.mkObj [("pool", Json.arr (pool.map fun f => Json.arr #[encPath f.path, Json.num f.size, Json.bool f.ignoreErrors]).toArray)]
 
+open Http in
+/-- {"mode":"legacy"|"strict","wire":["response",status,cl|null,lm|null] | ["protocol",disc] | ["exception"],
+     "body":n,"abort":b,"tag":n} -> {"missing","error","retry","size","date","resp":<L1 response>} -/
+def opHttpClassify (j : Json) : R Json := do
+  let mode := if (← fStr j "mode") == "strict" then Mode.strict else Mode.legacy
+  let w ← (← field j "wire").getArr?
+  let wire ← match w.toList with
+    | [Json.str "response", st, cl, lm] => do pure (Wire.response (← st.getNat?) (← optNat cl) (← optInt lm))
+    | [Json.str "protocol", d] => do pure (Wire.protocolError (← d.getBool?))
+    | [Json.str "exception"] => pure Wire.otherException
+    | _ => throw "bad wire"
+  let r := classify mode wire
+  let resp := toResp r (← fNat j "body") (← fBool j "abort") (← fNat j "tag")
+  let encOptNat : Option Nat → Json := fun | some n => Json.num n | none => Json.null
+  let encOptInt : Option Int → Json := fun | some n => Json.num (Lean.JsonNumber.fromInt n) | none => Json.null
+  let encResp : Resp → Json := fun
+    | .retry => Json.arr #[Json.str "retry"]
+    | .missing => Json.arr #[Json.str "missing"]
+    | .error => Json.arr #[Json.str "error"]
+    | .ok a d b ab t => Json.arr #[Json.str "ok", encOptNat a, encOptInt d, Json.num b, Json.bool ab, Json.num t]
+  return Json.mkObj [("missing", Json.bool r.missing), ("error", Json.bool r.error), ("retry", Json.bool r.retry),
+    ("size", encOptNat r.size), ("date", encOptInt r.date), ("resp", encResp resp)]
+
+open Http in
+/-- {"with_cert":b,"scheme":s,"no_check":b,"ca":s,"cert":s,"key":s,"use_proxy":b,"http_proxy":s,"https_proxy":s,"http2_disable":b}
+    -> {"verify":["system"]|["bundle",p]|["off"],"cert":null|[c]|[c,k],"proxy":null|s,"http2":b} -/
+def opHttpTransport (j : Json) : R Json := do
+  let px : ProxyCfg := ⟨(← fBool j "use_proxy"), (← fStr j "http_proxy"), (← fStr j "https_proxy")⟩
+  let s : Settings := ⟨(← fBool j "no_check"), (← fStr j "ca"), (← fStr j "cert"), (← fStr j "key"), px, (← fBool j "http2_disable")⟩
+  let t := transportFor (← fBool j "with_cert") s (← fStr j "scheme")
+  return Json.mkObj [
+    ("verify", match t.verify with
+      | .system => Json.arr #[Json.str "system"] | .bundle p => Json.arr #[Json.str "bundle", Json.str p] | .off => Json.arr #[Json.str "off"]),
+    ("cert", match t.cert with
+      | none => Json.null | some (.single c) => Json.arr #[Json.str c] | some (.pair c k) => Json.arr #[Json.str c, Json.str k]),
+    ("proxy", match t.proxy with | none => Json.null | some p => Json.str p),
+    ("http2", Json.bool t.http2)]
+
+open Http in
+/-- {"user":[bytes],"password":[bytes]} -> {"userinfo":[bytes],"user_back":[bytes],"password_back":[bytes]} -/
+def opProxyUserinfo (j : Json) : R Json := do
+  let u ← (← fArr j "user").mapM (·.getNat?)
+  let p ← (← fArr j "password").mapM (·.getNat?)
+  let enc : List Nat → Json := fun l => Json.arr (l.map fun (n : Nat) => Json.num (Lean.JsonNumber.fromNat n)).toArray
+  return Json.mkObj [("userinfo", enc (userinfo u p)), ("user_back", enc (unquote (quote u))), ("password_back", enc (unquote (quote p)))]
+
+
 def dispatch (j : Json) : R Json := do
   let op ← fStr j "op"
   match op with
@@ -414,6 +461,9 @@ def dispatch (j : Json) : R Json := do
   | "boolsize" => opBoolSize j
   | "plainname" => opPlainName j
   | "resolve" => opResolve j
+  | "http_classify" => opHttpClassify j
+  | "http_transport" => opHttpTransport j
+  | "proxy_userinfo" => opProxyUserinfo j
   | _ => throw s!"unknown op {op}"
 
 partial def loop (h : IO.FS.Stream) (out : IO.FS.Stream) : IO Unit := do
